@@ -1,0 +1,68 @@
+//! Verification-build re-exports of crate-private items. Compiled only with `--cfg mila_verif`.
+//! Nothing here contains logic: each item forwards to the real implementation.
+
+pub use crate::asset_binary::verif_hooks as asset_binary;
+pub use crate::bin_archive::verif_hooks as bin_archive;
+pub use crate::lz13::verif_hooks as lz13;
+pub use crate::text_archive::verif_hooks as text_archive;
+
+pub mod encoded_strings {
+    pub fn to_shift_jis(string: &str) -> Result<Vec<u8>, crate::EncodedStringsError> {
+        crate::encoded_strings::to_shift_jis(string)
+    }
+
+    pub fn to_utf_16(string: &str) -> Result<Vec<u8>, crate::EncodedStringsError> {
+        crate::encoded_strings::to_utf_16(string)
+    }
+}
+
+pub mod texture_decoder {
+    pub fn decode_color(value: u32, format: u32) -> Vec<u8> {
+        crate::texture_decoder::decode_color(value, format)
+    }
+
+    pub fn decode_pixel_data(
+        data: &[u8],
+        width: usize,
+        height: usize,
+        format: u32,
+    ) -> Result<Vec<u8>, crate::TextureDecodeError> {
+        crate::texture_decoder::decode_pixel_data(data, width, height, format)
+    }
+
+    pub fn get_pixel_format_bpp(pixel_format: u32) -> f32 {
+        crate::texture_decoder::get_pixel_format_bpp(pixel_format)
+    }
+}
+
+pub mod texture_utils {
+    pub fn block_to_sequential(
+        data: &[u8],
+        texture_width: usize,
+        texture_height: usize,
+        block_width: usize,
+        block_height: usize,
+    ) -> Result<Vec<u8>, crate::TextureDecodeError> {
+        crate::texture_utils::block_to_sequential(
+            data,
+            texture_width,
+            texture_height,
+            block_width,
+            block_height,
+        )
+    }
+
+    pub fn align(value: usize, increment: usize) -> usize {
+        crate::texture_utils::align(value, increment)
+    }
+
+    pub fn crop(input: &[u8], original_width: usize, width: usize, height: usize) -> Vec<u8> {
+        crate::texture_utils::crop(input, original_width, width, height)
+    }
+}
+
+pub mod pixel_encodings {
+    pub fn decode_rgb5a3_pixel(value: u16) -> Vec<u8> {
+        crate::pixel_encodings::decode_rgb5a3_pixel(value)
+    }
+}
